@@ -590,7 +590,7 @@ func runOtherCorruption(b *harness.B, rng *rand.Rand) {
 		err := w.UnmarshalText([]byte(s))
 		return w.String(), err
 	}
-	for _, s := range []string{"0", "1", "115792089237316195423570985008687907853269984665640564039457584007913129639935"} {
+	for _, s := range []string{"0", "1", "10", "11", "777", "1000", "115792089237316195423570985008687907853269984665640564039457584007913129639935"} {
 		if got, err := wkParse(s); err != nil || got != s {
 			b.Violate("C20/corruption/consensus.Work/positive-control", fmt.Sprintf("canonical %q not accepted as itself: %q %v", s, got, err), s)
 			continue
@@ -603,6 +603,13 @@ func runOtherCorruption(b *harness.B, rng *rand.Rand) {
 			{class: "empty", s: ""},
 			{class: "fraction", s: s + ".5"},
 			{class: "blank", s: " " + s},
+			// every textual form of a Work is a plain decimal number: the notations of other bases either denote the
+			// decimal value or nothing
+			{class: "leading-zero", s: "0" + s},
+			{class: "hex-prefix", s: "0x" + s},
+			{class: "binary-prefix", s: "0b" + s},
+			{class: "octal-prefix", s: "0o" + s},
+			{class: "digit-separator", s: s[:1] + "_" + s[1:]},
 		} {
 			if c.class == "negative" && s == "0" {
 				continue // "-0" denotes the same value
